@@ -561,6 +561,26 @@ def check_C08(tier, seed):
         for j in range(25):
             c.ctx(j); c.parsex(token_soup(rng))
         pcases.append(c)
+    # definitions are carried out while reading, wherever they stand (quoted, in a dead branch, in data): every
+    # shape of name, parameter list and body, also cut short
+    rt = []
+    plists = ['(&rest)', '(a &rest)', '(&optional)', '(&optional &rest)', '(&rest &optional x)', '(&rest a b)', '(&rest &rest a)', '(a . b)', '5', '((a))', '(a a)', '()', 'nil',
+              '("s")', '(:k)', '(t)', '(nil)', '(a &optional)', '(&optional a &rest)', '(&rest . a)', "('a)", '(a 1)']
+    for head in ('defun', 'defmacro', 'lambda'):
+        for pl in plists:
+            for form in ('(%s rtf %s 1)' % (head, pl), '(%s rtf %s)' % (head, pl)) if head != 'lambda' else ('(%s %s 1)' % (head, pl),):
+                for ctxt in ('%s', "'%s", '(if nil %s 1)', "(list '%s)", '`(%s)', '(progn (quote %s) 2)'):
+                    rt.append(ctxt % form)
+                rt.append(form[:-1]); rt.append(form[:-2])
+    for nm in ('5', '(g)', 'nil', '"s"', ':k', ''):
+        for head in ('defun', 'defmacro'):
+            rt += ['(%s %s (a) a)' % (head, nm), "'(%s %s (a) a)" % (head, nm), '(%s %s)' % (head, nm), '(%s)' % head, '(%s . %s)' % (head, nm or 'x')]
+    for i in range(0, len(rt), 25):
+        c = Case('rt%d' % i)
+        for j, tx in enumerate(rt[i:i + 25]):
+            c.ctx(j); c.parsex(tx)
+        pcases.append(c)
+    res.cov['read_time_definition_texts'] = len(rt)
     # the same reader behind load / eval-file: file contents incl. unusual first lines
     heads = ['', '#!', '#!/usr/bin/tulisp', '#!/usr/bin/tulisp\n', '#', ';', ';; -*- lexical-binding: t -*-', '\ufeff', '\n', '\r\n', '#!\n(+ 1 2)', '"', '(', ')']
     for i in range(tier_n(tier, 60, 1500)):
@@ -1119,8 +1139,9 @@ def check_C15(tier, seed):
         add('(%s "a" 1)' % f, 'E', 'strcmp-type'); add('(%s \'a "a")' % f, 'E', 'strcmp-type'); add('(%s "a")' % f, 'E', 'strcmp-arity')
         add('(%s "a" "b" "c")' % f, 'E', 'strcmp-arity')
     # format
-    dirs = ['%s', '%S', '%d', '%f', '%%', '%x', 'lit', ' ', '%c']
-    argvals = [1, -7, 2.5, 22.8, 3.0, 'str', 'a"b', ('sym', 'foo'), None, True, [1, 'x'], [('sym', 'a'), [2]], '', 'x\\y']
+    # literal text of the template: ASCII, multi-byte, quote, backslash, newline
+    dirs = ['%s', '%S', '%d', '%f', '%%', '%x', 'lit', ' ', '%c', '\u00e9', '\u00b0C \u2014 ', '\u6f22\U0001F600', 'a"b', 'x\\y', '\n']
+    argvals = [1, -7, 2.5, 22.8, 3.0, 'str', 'a"b', ('sym', 'foo'), None, True, [1, 'x'], [('sym', 'a'), [2]], '', 'x\\y', 'na\u00efve \u6f22']
     nfmt = tier_n(tier, 1500, 40000)
     fmts = []
     for n in (0, 1, 2):
@@ -1377,9 +1398,31 @@ def check_C07(tier, seed):
     for t in ["`(1 2 3)", "`(a (b c) d)", "`(1 ,x (2 3))", "`(,@l3 z)", "`(0 ,@l3)", "`((a) ,@l1 (b))", "`(,x . ,l3)"]:
         fresh.append(("%s (defun mk () %s) (let ((r1 (mk)) (r2 (mk))) (list (eq r1 r2) (eq (cdr r1) (cdr r2)) (eq (cdr r1) l3) (eq (cdr r1) (cdr l3)) (if (consp (cadr r1)) (eq (cadr r1) (cadr r2))) (if (consp (car r1)) (eq (car r1) (car r2)))))" % (prelude, t),
                       {'tmpl': t, 'fresh': True}))
+    # the same small templates evaluated inside a closure, after the let that bound their variables has exited and
+    # while other bindings of the same names are live: equal to the evaluation inside the let
+    clos = []
+    LETB = "((x 5) (l0 nil) (l1 '(one)) (l3 '(p q r)))"
+    for n in range(0, 3):
+        for its in itertools.product(small, repeat=n):
+            for tl in tails:
+                if n == 0 and tl is not None: continue
+                t = list(its) if tl is None else Dot(list(its), tl)
+                text_t = render(BQ(t))
+                prog = ("(setq x 'gx) (setq l0 '(g0)) (setq l1 '(g1)) (setq l3 '(g3)) (setq f (let %s (lambda () %s))) "
+                        "(let ((direct (let %s %s))) (list (equal (funcall f) direct) (let ((x 'dyn) (l3 '(dyn)) (l1 nil)) (equal (funcall f) direct)) direct))"
+                        % (LETB, text_t, LETB, text_t))
+                clos.append((prog, {'tmpl': text_t, 'closure': True}))
     rows = run_exprs(res, items, per_case=20)
     rows2 = run_exprs(res, fresh, per_case=10, tag='f')
+    rows3 = run_exprs(res, clos, per_case=20, tag='c')
     nv = 0
+    for text, meta, im, mo in rows3:
+        if im is None: continue
+        if im['kind'] != 'V' or not im['payload'].startswith('(t t '):
+            nv += 1
+            if nv <= 8: res.violation('backquote-closure', {'program': text, 'template': meta['tmpl'], 'impl': im,
+                                                            'why': 'a template evaluated in a closure differs from its evaluation where the closure was created'})
+    res.cov['closure_templates'] = len(clos)
     distinct = set()
     for text, meta, im, mo in rows:
         if im is None: continue
@@ -2366,6 +2409,14 @@ def check_C16(tier, seed):
         body = rng.choice(['', '(setq pad "é漢\U0001F600 padding")\n', ';; cömment (\n', '(setq pad \'(' + ' '.join('"ééééééééé%d"' % k for k in range(12)) + '))\n']) + data.layout(rng, toks, 'as_built')
         defs = programs.render_text(texts[0]) if len(texts) > 1 else ''
         progs.append((defs, body))
+    # forms that a macro hands back unchanged as its expansion (identity / selecting macros, threading with one form):
+    # the failing call keeps its own extent
+    mdefs = "(defmacro idm (x) x) (defmacro pick (flag form) (if flag form nil)) (defmacro twice (x) (list 'progn x x))"
+    mbodies = ["(list (idm (tick 1 5))\n  (pick t (tick 2 6))\n (-> (tick 3 7))\n   (->> (tick 4 8)) (thread-first (tick 5 9))\n (when t (idm (tick 6 1))))",
+               "(progn\n  (setq a (idm\n     (tick 1 1)))\n  (pick (tick 2 t)\n        (tick 3 a))\n  (thread-last\n (tick 4 2)))",
+               "  (twice (tick 1 0))\n(idm (idm (tick 2 1)))   (pick nil (tick 3 2)) (idm (list (tick 4 3) (idm (tick 5 4))))",
+               "(let ((é (idm (tick 1 \"é漢\"))))\n\t(-> (tick 2 é)\n\t    (list (tick 3 1))))"]
+    for mb in mbodies: progs.append((mdefs, mb))
     base = []
     for i, (defs, body) in enumerate(progs):
         c = Case('b%d' % i)
